@@ -1,6 +1,6 @@
 package main
 
-const scenarioBoundsQuick = "scenarios (sum, not product): origin lists {*; a.b; *.a.b:*+a.b; http a.b+[::1]} x 1 Origin value of <=13 symbolic bytes (absent / empty list / 1 / 2 values) x {GET, OPTIONS, preflight}; method lists (3 menus) x ACRM <=6 symbolic bytes; request-header lists (5 menus: none, *, *+Authorization in both orders and cases, {x-a,B}) x 0-2 ACRH lines of <=5 symbolic bytes; PNA switches x ACRPN <=5 bytes; expose (3) / max-age {0,-1,600} / status symbolic 64-bit; dispatch: method <=7 symbolic bytes x presence kinds of Origin and ACRM; debug symbolic except in the origin scenario (off)"
+const scenarioBoundsQuick = "scenarios (sum, not product): origin lists {*; a.b; *.a.b:*+a.b; http a.b+[::1]+[1::1]} x 1 Origin value of <=13 symbolic bytes (absent / empty list / 1 / 2 values) x {GET, OPTIONS, preflight}; method lists (3 menus) x ACRM <=6 symbolic bytes; request-header lists (5 menus: none, *, *+Authorization in both orders and cases, {x-a,B}) x 0-2 ACRH lines of <=5 symbolic bytes; PNA switches x ACRPN <=5 bytes; expose (3) / max-age {0,-1,600,5} / status symbolic 64-bit; dispatch: method <=7 symbolic bytes x presence kinds of Origin and ACRM; debug symbolic except in the origin scenario (off)"
 const scenarioBoundsThorough = "as quick with: 8 origin menus (incl. IPv4/IPv6 loopback, trailing dot, shared non-label suffix, :* ports), Origin <=17 bytes, debug symbolic everywhere, 5 method menus, 7 request-header menus, 0-3 ACRH lines of <=6 bytes, 5 expose menus, 6 max-age values"
 const scenarioOutside = "configurations outside the menus; request values longer than the bounds; combinations of two symbolic aspects at once (each scenario pins the aspects it does not vary); IDNA/PSL/netip semantics beyond the menu atoms (run natively)"
 
